@@ -62,7 +62,7 @@ def main():
             except Exception as e:  # pylint:disable=broad-except
                 res["check"]["replay_err"] = str(e)
     finally:
-        sh("git -C /repo checkout -- . && git -C /repo reset -q --hard HEAD")
+        sh("git -C /repo reset -q --hard HEAD; git -C /repo checkout -- .")
         sh(f"cd {VERIF} && git checkout -- evidence lean/Ahbicht/Generated 2>/dev/null")
     res["check"]["detected"] = res["check"].get("exit") == 1
     # 3. keep
